@@ -290,7 +290,7 @@ def rule_live(env, shared):
             if dl is not None:
                 for bj, t2, c2 in b.calls():
                     mk = PURE.get(callee_model_key(c2))
-                    if mk in ("Option::and_then", "Option::map", "Try::branch") and t2["args"] \
+                    if mk in ("Option::and_then", "Option::map", "Try::branch", "bool::then_some", "bool::then") and t2["args"] \
                             and t2["args"][0]["k"] in ("move", "copy") and t2["args"][0]["place"]["l"] == dl:
                         used_ok = True
             # or matched on (its discriminant is switched on) with the Some arm continuing
